@@ -11,9 +11,10 @@
  *
  *   srv T UMASK                                   -> srv ok        (T = shm|sock; octal umask of the server)
  *   par N                                         -> par N         (the next N cli lines run concurrently)
- *   cli I uid=U gid=G rc=R auth=U2:G2:MODE|- fail=K:ENAME|- msgs=M
+ *   cli I uid=U gid=G ids=res|eff rc=R auth=U2:G2:MODE|- fail=K:ENAME|- msgs=M
+ *      (ids=res: the child sets real, effective and saved ids; ids=eff: only the effective ones)
  *      -> block:  cli I
- *                 real U G                        ids the child reports (geteuid/getegid after the drop)
+ *                 ids real=U:G eff=U:G            ids the child reports after the drop
  *                 fs CALL PATH [ARGS] -> RES | SNAP      server-side call + ledger of the connection after it
  *                 accept U G / authset U G MODE   arguments of connection_accept / what the script did in it
  *                 connect R                       0 or -errno of the client's qb_ipcc_connect
@@ -46,7 +47,7 @@ struct cli {
 	int ncalls;
 	char *ev[MAXEV];
 	int nev;
-	int got_real, real_uid, real_gid;
+	int got_real, real_uid, real_gid, eff_uid, eff_gid, eff_only;
 	int got_connect, connect_res;
 	int got_sent, sent;
 	int bye;
@@ -541,11 +542,12 @@ static void child_main(struct cli *cl, int cmd_fd, int rep_fd)
 	int i, ok = 0;
 	adm_child = 1;
 	setgroups(0, NULL);
-	if (setegid(cl->gid) != 0 || seteuid(cl->uid) != 0) {
-		dprintf(rep_fd, "real -1 -1\n");
+	if (cl->eff_only ? (setegid(cl->gid) != 0 || seteuid(cl->uid) != 0)
+			 : (setresgid(cl->gid, cl->gid, cl->gid) != 0 || setresuid(cl->uid, cl->uid, cl->uid) != 0)) {
+		dprintf(rep_fd, "ids -1 -1 -1 -1\n");
 		_exit(3);
 	}
-	dprintf(rep_fd, "real %d %d\n", (int)geteuid(), (int)getegid());
+	dprintf(rep_fd, "ids %d %d %d %d\n", (int)getuid(), (int)getgid(), (int)geteuid(), (int)getegid());
 	c = qb_ipcc_connect(svc_name, MAXMSG);
 	dprintf(rep_fd, "connect %d\n", c ? 0 : -errno);
 	if (read(cmd_fd, &b, 1) != 1) _exit(4);
@@ -582,7 +584,7 @@ static void check_phase(void)
 
 static void rep_line(struct cli *cl, const char *l)
 {
-	if (sscanf(l, "real %d %d", &cl->real_uid, &cl->real_gid) == 2) cl->got_real = 1;
+	if (sscanf(l, "ids %d %d %d %d", &cl->real_uid, &cl->real_gid, &cl->eff_uid, &cl->eff_gid) == 4) cl->got_real = 1;
 	else if (sscanf(l, "connect %d", &cl->connect_res) == 1) cl->got_connect = 1;
 	else if (sscanf(l, "sent %d", &cl->sent) == 1) cl->got_sent = 1;
 	else if (strncmp(l, "bye", 3) == 0) cl->bye = 1;
@@ -643,6 +645,7 @@ static int parse_cli(char *line, struct cli *cl)
 		else if (strncmp(tok, "gid=", 4) == 0) cl->gid = atoi(tok + 4);
 		else if (strncmp(tok, "rc=", 3) == 0) cl->rc = atoi(tok + 3);
 		else if (strncmp(tok, "msgs=", 5) == 0) cl->msgs = atoi(tok + 5);
+		else if (strcmp(tok, "ids=eff") == 0) cl->eff_only = 1;
 		else if (strncmp(tok, "auth=", 5) == 0) {
 			unsigned m;
 			if (sscanf(tok + 5, "%d:%d:%o", &cl->auid, &cl->agid, &m) == 3) {
@@ -718,7 +721,7 @@ static void run_group(int n)
 		struct cli *cl = &clis[i];
 		snapshot(cl, snap, sizeof snap);
 		printf("cli %d\n", cl->idx);
-		printf("real %d %d\n", cl->real_uid, cl->real_gid);
+		printf("ids real=%d:%d eff=%d:%d\n", cl->real_uid, cl->real_gid, cl->eff_uid, cl->eff_gid);
 		for (k = 0; k < cl->nev; k++) {
 			printf("%s\n", cl->ev[k]);
 			free(cl->ev[k]);
@@ -758,10 +761,51 @@ static void svc_stop(void)
 	}
 }
 
+/* A sanitizer report ends the server process at once.  A janitor process forked at start waits for
+ * that (EOF on a pipe whose write end only the harness and its children hold) and removes what this
+ * harness process left under /dev/shm/qb-<its pid>-*. */
+static void start_janitor(void)
+{
+	int p[2];
+	pid_t parent = getpid();
+	if (pipe(p) != 0) return;
+	if (fork() == 0) {
+		char pfx[64], b;
+		DIR *d;
+		struct dirent *e;
+		int fd;
+		adm_child = 1;
+		close(p[1]);
+		for (fd = 0; fd < 3; fd++) close(fd);
+		while (read(p[0], &b, 1) > 0) { }
+		snprintf(pfx, sizeof pfx, "qb-%d-", (int)parent);
+		d = opendir("/dev/shm");
+		while (d && (e = readdir(d)) != NULL) {
+			char path[512], p2[1024];
+			DIR *d2;
+			struct dirent *e2;
+			if (strncmp(e->d_name, pfx, strlen(pfx)) != 0) continue;
+			snprintf(path, sizeof path, "/dev/shm/%s", e->d_name);
+			d2 = opendir(path);
+			while (d2 && (e2 = readdir(d2)) != NULL) {
+				if (e2->d_name[0] == '.') continue;
+				snprintf(p2, sizeof p2, "%s/%s", path, e2->d_name);
+				unlink(p2);
+			}
+			if (d2) closedir(d2);
+			rmdir(path);
+		}
+		_exit(0);
+	}
+	close(p[0]);
+	/* p[1] stays open (and is inherited by the forked clients) until the last of them is gone */
+}
+
 int main(void)
 {
 	char line[1024];
 	int pending = 0, have = 0;
+	start_janitor();
 	hl_init();
 	snprintf(shm_pfx, sizeof shm_pfx, "/dev/shm/qb-%d-", (int)getpid());
 	while (fgets(line, sizeof line, stdin)) {
